@@ -514,6 +514,9 @@ class WebSocket:
             If None, it will wait forever until receive a close frame.
         """
         if not self.connected:
+            # The closing handshake was already started (send_close() or the
+            # reply to the server's close frame): only release the socket.
+            self.shutdown()
             return
         if status < 0 or status >= ABNF.LENGTH_16:
             raise ValueError("code is invalid range")
